@@ -148,6 +148,16 @@ def stepLine (d : DSt) (line : String) : DSt × String :=
   | _ =>
     match d with
     | .iq s =>
+      -- `seq a ;; b ;; …`: the ops in order, outputs merged; observation = completions + number of pending requests
+      if ws.head? = some "seq" then
+        let parts := (" ".intercalate ws.tail).splitOn " ;; "
+        match parts.mapM (fun p => iqOp (words p)) with
+        | some ops =>
+          let r := Qx.C07.run s ops
+          let ds := sortBy (fun (a b : Done) => a.req ≤ b.req) r.2
+          (.iq r.1, dash (ds.map fun d => s!"{d.req}:{showHow d.how}") ++ s!"|n={r.1.tbl.length}")
+        | none => (d, "bad-op")
+      else
       match iqOp ws with
       | some op => let r := step s op; (.iq r.1, obsIq r.1 r.2)
       | none => (d, "bad-op")
